@@ -139,7 +139,12 @@ inline void set_case(std::string_view s) {
   size_t n = std::min(s.size(), sizeof(g_case) - 1);
   memcpy(g_case, s.data(), n); g_case[n] = 0;
 }
+// optional driver hook: rewrite g_case into a complete replayable witness (called once, while dying)
+inline void (*g_crash_hook)() = nullptr;
 inline void crash_handler(int sig) {
+  alarm(10);  // never hang while dying
+  for (int s : {SIGSEGV, SIGABRT, SIGBUS, SIGFPE, SIGILL}) signal(s, SIG_DFL);
+  if (g_crash_hook) { auto h = g_crash_hook; g_crash_hook = nullptr; h(); }
   FILE* f = fopen(g_crash_path, "w");
   if (f) { fprintf(f, "%d\n%s\n", sig, g_case); fclose(f); }
   _exit(100 + sig);
